@@ -207,10 +207,15 @@ static void dump(int ci, const char* why) {
             size_t const nb = (size_t)1 << (ap->ldmParams.hashLog - ap->ldmParams.bucketSizeLog);
             const BYTE* const h = (const BYTE*)c->ldmState.hashTable; const BYTE* const bo = c->ldmState.bucketOffsets;
             ull nzl = 0; size_t i;
-            for (i = 0; i < hb; i++) nzl += (h[i] != 0);
-            if (bo) for (i = 0; i < nb; i++) nzl += (bo[i] != 0);
-            printf(" ldmnz=%llu ldmidx=%lld ldmll=%u ldmdl=%u ldmlde=%u", nzl, (long long)(c->ldmState.window.nextSrc - c->ldmState.window.base),
-                   c->ldmState.window.lowLimit, c->ldmState.window.dictLimit, c->ldmState.loadedDictEnd);
+            /* after a failed reset (appliedParams are written first) the pointers may belong to an older, smaller table */
+            int const inside = h >= (const BYTE*)ws->workspace && h + hb <= (const BYTE*)ws->workspaceEnd
+                            && (bo == NULL || (bo >= (const BYTE*)ws->workspace && bo + nb <= (const BYTE*)ws->workspaceEnd));
+            if (inside) {
+                for (i = 0; i < hb; i++) nzl += (h[i] != 0);
+                if (bo) for (i = 0; i < nb; i++) nzl += (bo[i] != 0);
+                printf(" ldmnz=%llu ldmidx=%lld ldmll=%u ldmdl=%u ldmlde=%u", nzl, (long long)(c->ldmState.window.nextSrc - c->ldmState.window.base),
+                       c->ldmState.window.lowLimit, c->ldmState.window.dictLimit, c->ldmState.loadedDictEnd);
+            }
         }
     }
     printf(" ws=%llu wsz=%zu oe=%zu te=%zu tve=%zu as=%zu ios=%zu ph=%d af=%d osd=%d",
